@@ -113,6 +113,7 @@ func NewRenderContext(env *Environment, context map[string]interface{}, engine *
 	ctx.parent = nil
 	ctx.inParentCall = false
 	ctx.sandboxed = false
+	ctx.lastLoadedTemplate = nil // never inherit the template of a previous, unrelated render
 
 	// Copy the context values directly
 	if context != nil {
@@ -278,6 +279,19 @@ func (ctx *RenderContext) GetVariable(name string) (interface{}, error) {
 	// Return nil with no error for undefined variables
 	// Twig treats undefined variables as empty strings during rendering
 	return nil, nil
+}
+
+// currentTemplateName returns the name of the template this context is rendering
+// (the nearest enclosing context that knows its template). Relative template names
+// ("./x", "../x") are resolved against it. It is per-render state: it must not live on
+// the engine, which is shared by concurrent renders.
+func (ctx *RenderContext) currentTemplateName() string {
+	for c := ctx; c != nil; c = c.parent {
+		if c.lastLoadedTemplate != nil && c.lastLoadedTemplate.name != "" {
+			return c.lastLoadedTemplate.name
+		}
+	}
+	return ""
 }
 
 // GetVariableOrNil gets a variable from the context, returning nil silently if not found
